@@ -104,6 +104,10 @@ def stored_codec(P):
 def run(ctx):
     P = ctx.P
     cfg = ctx.config
+    if cfg in ('A', 'C', 'D'):
+        from .repo_lookup import unordered_updates_cache
+        ctx.check('TIERED-LOOKUP', 'one cached copy per prior epoch: the cache is searched linearly by equality (a missed entry is loaded twice and both copies are flushed)',
+                  unordered_updates_cache, floor=1)
     if cfg != 'P':
         ctx.check('CODEC', 'stored records decode to what was encoded (size / encode / decode agreement of Snapshot, PriorEpoch and everything inside)',
                   stored_codec, floor={'A': 70, 'B': 45, 'C': 70, 'D': 70}.get(cfg, 45))
